@@ -371,8 +371,14 @@ func ruleFitSearchDiscipline(c *Ctx) {
 		for b := range l.blocks {
 			for _, ins := range b.Instrs {
 				if st, ok := ins.(*ssa.Store); ok && isNilConst(st.Val) {
-					if ia, ok := st.Addr.(*ssa.IndexAddr); ok && isLoadOf(ia.X, fits) {
-						resetHeaders[l.header] = true
+					if ia, ok := st.Addr.(*ssa.IndexAddr); ok {
+						x := ia.X
+						if sl, isSl := x.(*ssa.Slice); isSl { // the tail taken first: later := RuleFits[index+1:]
+							x = sl.X
+						}
+						if isLoadOf(x, fits) {
+							resetHeaders[l.header] = true
+						}
 					}
 				}
 			}
@@ -391,7 +397,29 @@ func ruleFitSearchDiscipline(c *Ctx) {
 					continue
 				}
 				ia, ok := st.Addr.(*ssa.IndexAddr)
-				if !ok || !isLoadOf(ia.X, fits) {
+				if !ok {
+					continue
+				}
+				isParamPlusOne := func(e ssa.Value) bool {
+					bo, isAdd := strip(e).(*ssa.BinOp)
+					if !isAdd || bo.Op != token.ADD {
+						return false
+					}
+					for _, pair := range [][2]ssa.Value{{bo.X, bo.Y}, {bo.Y, bo.X}} {
+						if k, isC := constInt(pair[1]); isC && k == 1 {
+							if _, isParam := pair[0].(*ssa.Parameter); isParam {
+								return true
+							}
+						}
+					}
+					return false
+				}
+				if sl, isSl := ia.X.(*ssa.Slice); isSl && isLoadOf(sl.X, fits) {
+					// the tail taken first and cleared whole: it must begin at index+1
+					c.Check(sl.Low != nil && isParamPlusOne(sl.Low), rule, "first rule cleared by the reset loop of "+fnName(cb), "the reset starts at index+1, the rule right after the one that improved", P.instrPos(st), "the cleared tail does not begin at index+1")
+					continue
+				}
+				if !isLoadOf(ia.X, fits) {
 					continue
 				}
 				phi, isPhi := strip(ia.Index).(*ssa.Phi)
